@@ -293,15 +293,17 @@ TEvent ==
         G10(<<R.node, R.hash>> \in fw.downFul =>
               (R.node \in fw.crashed /\ <<R.node, R.hash>> \notin fw.liveAtCrash))
 
+GF(p) == IF fw.crashed = {} THEN G1(p) ELSE G10(p)
 TProj ==
   /\ IsEvent("proj")
   /\ UNCHANGED <<cvars, nodeOf, saved, everRAA, fw>>
   /\ projB' = [n \in DOMAIN projB \cup {<<R.node, R.chan>>} |-> IF n = <<R.node, R.chan>> THEN R ELSE projB[n]]
   \* at the end of a wound-down run nothing is left pending on an open channel
   \* (an HTLC whose other leg is on a channel that was force-closed waits for the chain, which is not part of these runs)
+  \* (after a crash in the run this is C10's "every HTLC that was pending still resolves", otherwise C01's)
   /\ (R.final /\ ~Closed(EP(R.chan, R.node))) =>
-        /\ G1(\A x \in hs[EP(R.chan, R.node)] : \E a \in fw.adds : a.hash = x.hash /\ Closed(EP(a.chan, a.node)))
-        /\ G1(R.n_in + R.n_out = Cardinality(hs[EP(R.chan, R.node)]))
+        /\ GF(\A x \in hs[EP(R.chan, R.node)] : \E a \in fw.adds : a.hash = x.hash /\ Closed(EP(a.chan, a.node)))
+        /\ GF(R.n_in + R.n_out = Cardinality(hs[EP(R.chan, R.node)]))
   \* the projection after a reload equals the one taken before it
   /\ (R.after_reload /\ <<R.node, R.chan>> \in DOMAIN projB) =>
         LET b == projB[<<R.node, R.chan>>] IN
